@@ -103,6 +103,15 @@ pub const MAX_STEPS: usize = 400_000;
 
 pub fn execute(w: &CfgWorkload, spec: SchedSpec) -> Option<CfgRun> {
     let prepared: Vec<Prepared> = w.jobs.iter().map(Prepared::new).collect::<Option<Vec<_>>>()?;
+    // every job must terminate within the call budget when parsed without a limit (the worlds
+    // run parses with no limit; a non-terminating job — possible through the validator gaps of
+    // property C06 — would loop without ever reaching a scheduling point)
+    for p in &prepared {
+        let (o, _calls, refused) = run_with(p, crate::worker::MAX_CALLS, false);
+        if refused > 0 || matches!(o.core, Core::Panic(_)) {
+            return None;
+        }
+    }
     let prepared = Arc::new(prepared);
     let results: Arc<Mutex<Vec<(usize, usize, Outcome)>>> = Arc::new(Mutex::new(Vec::new()));
     let w2 = Arc::new(w.clone());
